@@ -189,8 +189,20 @@ package ftp
 // The channel handed to the connection object is created for this connection (so the pump goroutine
 // started beside it sees this connection's commands only) and is closed before Handle returns (so the
 // pump's range loop ends: no goroutine is left behind per past connection).
+// The driver handed to the connection object is a per-session one as well (its working directory is not
+// shared with other sessions).
+//@ func (*Fs).forSession
+//@   check safety, frame
+//@   requires ftp.Htfs != nil
+//@   ensures [own] result != nil && fresh(result) && result.Htfs != nil && fresh(result.Htfs)
+//@   ensures [same-root] result.Htfs.root == ftp.Htfs.root && result.Htfs.cwd == ftp.Htfs.cwd
+//@   ensures [inv] filesystem.fsinv(ftp.Htfs) ==> filesystem.fsinv(result.Htfs)
+//@   modifies nothing
+//
 //@ func (*ftpService).Handle
+//@   physical typeis(s.driver, *Fs) ==> unbox(s.driver, *Fs) != nil && unbox(s.driver, *Fs).Htfs != nil
 //@   callpre (*Server).newConn: fresh(recv)
+//@   callpre (*Server).newConn: typeis(caller.s.driver, *Fs) ==> typeis(driver, *Fs) && fresh(unbox(driver, *Fs)) && fresh(unbox(driver, *Fs).Htfs)
 //@   ensures [pump-ends] closed(recv)
 //@   modifies *
 //
